@@ -154,6 +154,46 @@ example :
     let st := xsInit 2 [⟨1, 0, 10, 1⟩, ⟨1, 20, 10, 2⟩, zeroExon, zeroExon]
     (add st.1 st.2 [⟨1, 5, 10, 3⟩]).2.2 = some .overlap := by decide
 
+/-- **"… including slices with spare capacity"**, the reset idiom on bare `Exons` values: over every
+    history of a variable `s` (kept / dropped `Add`s, `s[:j]`, `s[j:]`) and a second variable `held`
+    (`held = s` at any points) — so in particular `held := s; s = s[:0]`, after which the receiver is
+    empty and its spare capacity is the array `held` still reads — an `Add` on `s`, rejected or
+    accepted, leaves what `held` reads (its exons and its whole backing array) exactly as it was, and
+    a rejected one also leaves `s` itself as it was. -/
+theorem add_keeps_held_history (n : Nat) (cells0 : List Exon) (hn : n ≤ cells0.length)
+    (ops : List XhOp) (xs : List Exon) :
+    let st := xhRun (xhInit n cells0) ops
+    let res := add st.1.1 st.1.2 xs
+    read res.1 st.2 = read st.1.1 st.2 ∧ cells res.1 st.2 = cells st.1.1 st.2 ∧
+      (∀ e, res.2.2 = some e →
+        res.2.1 = st.1.2 ∧ read res.1 st.1.2 = read st.1.1 st.1.2 ∧ cells res.1 st.1.2 = cells st.1.1 st.1.2) := by
+  intro st res
+  obtain ⟨w, wh⟩ := xhRun_wf (xhInit_wf n cells0 hn).1 (xhInit_wf n cells0 hn).2 ops
+  have hk : Keeps st.1.1.length st.1.1 res.1 := addWith_keeps exactGrow sortByStart st.1.1 st.1.2 xs
+  refine ⟨read_of_keeps hk _ wh, cells_of_keeps hk _ wh, ?_⟩
+  intro e he
+  have hrej : addWith exactGrow sortByStart st.1.1 st.1.2 xs = (res.1, res.2.1, some e) := by
+    rw [← he]; rfl
+  obtain ⟨h1, h2, h3, _⟩ := rejected_add_unchanged exactGrow sortByStart st.1.1 st.1.2 xs w.arr_lt _ _ e hrej
+  exact ⟨h1, h3, h2⟩
+
+-- non-vacuity: `held := s; s = s[:0]`, then a rejected Add of two exons that fit the capacity
+example :
+    let st := xhRun (xhInit 3 [⟨1, 0, 15, 1⟩, ⟨1, 15, 50, 2⟩, ⟨1, 94, 15, 3⟩]) [.hold, .op (.upTo 0)]
+    st.1.2.len = 0 ∧ cap st.1.1 st.1.2 = 3 ∧ read st.1.1 st.2 = [⟨1, 0, 15, 1⟩, ⟨1, 15, 50, 2⟩, ⟨1, 94, 15, 3⟩] ∧
+    (add st.1.1 st.1.2 [⟨1, 4, 7, 4⟩, ⟨1, 8, 28, 5⟩]).2.2 = some .overlap := by decide
+
+/-- Refutation witness for seeded change C20-m3 on bare `Exons` values: with `Add` appending into
+    the receiver (as on the pinned tree, and as the seeded change does for an empty receiver), after
+    `held := s; s = s[:0]` the rejected `s.Add(4–11, 8–36)` leaves `s` (empty) as it was but `held`
+    reads `[4–11, 8–36, 94–109]`: the statement of `add_keeps_held_history` is false of it, while
+    "the receiver's contents are as they were" is not violated. -/
+theorem pinned_reset_add_corrupts_held :
+    let st := xhRun (xhInit 3 [⟨1, 0, 15, 1⟩, ⟨1, 15, 50, 2⟩, ⟨1, 94, 15, 3⟩]) [.hold, .op (.upTo 0)]
+    let res := addPinnedWith exactGrow sortByStart st.1.1 st.1.2 [⟨1, 4, 7, 4⟩, ⟨1, 8, 28, 5⟩]
+    res.2.2 = some .overlap ∧ read res.1 st.1.2 = read st.1.1 st.1.2 ∧
+      read res.1 st.2 = [⟨1, 4, 7, 4⟩, ⟨1, 8, 28, 5⟩, ⟨1, 94, 15, 3⟩] := by decide
+
 /-- Refutation witness for the pinned tree (defect F20): with `Add` as it was (append into
     the receiver, sort in place, then check), `s = [0–10, 20–30]` with capacity 4 and
     `Add(5–15)` is rejected and `s` then reads `[0–10, 5–15]`.  The statement
@@ -180,8 +220,10 @@ theorem rejected_setExons_unchanged (grow : Nat → Nat → Nat) (sort : List Ex
   exact ⟨rfl, read_of_keeps hk _ ht, cells_of_keeps hk _ ht, hk.2⟩
 
 /-- … over histories of a transcript: after any sequence of `SetExons`, `t.Exons().Add(…)`
-    (result dropped) and `Add`-then-`SetExons` calls, accepted or rejected, a rejected update of
-    any of the three kinds leaves `t.Exons()` exactly as it was. -/
+    (result dropped), `Add`-then-`SetExons` and `t.Exons()[:j].Add(…)` (result dropped; `j = 0` is
+    the reset idiom, whose receiver is empty and has the transcript's live exon array as spare
+    capacity) calls, accepted or rejected, a rejected update of any of the four kinds leaves
+    `t.Exons()` exactly as it was. -/
 theorem rejected_update_unchanged_history (id : Nat) (ops : List TxOp) (op : TxOp) (e : Err) :
     let st := txRun (txInit id) ops
     (txApply st op).2 = some e →
@@ -233,6 +275,15 @@ theorem rejected_update_unchanged_history (id : Nat) (ops : List TxOp) (op : TxO
           obtain ⟨h1, h2, _⟩ := rejected_setExons_unchanged exactGrow sortByStart h' st.2 _ ht h'' t' e hres2
           subst h1
           exact ⟨rfl, h2.trans (read_of_keeps hk _ w.arr_lt)⟩
+  | resliceAdd j xs =>
+    simp only [txApply] at hrej ⊢
+    have hk := addWith_keeps exactGrow sortByStart st.1 (resliceTo st.1 st.2.exons j) xs
+    cases hres : add st.1 (resliceTo st.1 st.2.exons j) xs with
+    | mk h' p =>
+      obtain ⟨r, e'⟩ := p
+      unfold add at hres
+      rw [hres] at hk
+      exact ⟨by first | rfl | trivial, read_of_keeps hk _ w.arr_lt⟩
 
 -- non-vacuity: SetExons accepted, then a rejected Add through Exons(), then a rejected SetExons
 example :
@@ -241,6 +292,101 @@ example :
     (txApply st (.set [⟨1, 3, 10, 4⟩])).2 = some .noZeroStart ∧
     (txApply st (.set [⟨2, 0, 10, 5⟩])).2 = some .notTranscript ∧
     read st.1 st.2.exons = [⟨1, 0, 10, 1⟩, ⟨1, 20, 10, 2⟩] := by decide
+
+/-- **`t.Exons()[:j].Add(xs…)` never writes a cell of the transcript's array** — for every heap,
+    every transcript whose exon slice lies in it, every `j` (clamped to the capacity as Go demands,
+    so the receiver may reach into all of the transcript's spare capacity; `j = 0`: the reset idiom
+    `t.Exons()[:0].Add(…)`, an empty receiver whose spare capacity is the transcript's live exon
+    array), every argument list, growth policy and sorting function, whether the call is accepted or
+    rejected: the transcript's whole backing array `t.Exons()[:cap]`, hence the exon set it shows,
+    reads as before, a rejected call returns the re-sliced receiver, and no other array that existed
+    changed either.  (Seeded change C20-m3 — no defensive copy for an empty receiver — falsifies
+    exactly this: the arguments are appended and sorted inside the transcript's array.) -/
+theorem reslice_add_never_writes_transcript (grow : Nat → Nat → Nat) (sort : List Exon → List Exon)
+    (h : Heap) (t : Tx) (j : Nat) (xs : List Exon) (ht : t.exons.arr < h.length) :
+    let res := addWith grow sort h (resliceTo h t.exons j) xs
+    cells res.1 t.exons = cells h t.exons ∧ read res.1 t.exons = read h t.exons ∧
+      (∀ a < h.length, Heap.arr res.1 a = Heap.arr h a) ∧
+      (∀ e, res.2.2 = some e → res.2.1 = resliceTo h t.exons j) := by
+  intro res
+  have hk : Keeps h.length h res.1 := addWith_keeps grow sort h (resliceTo h t.exons j) xs
+  refine ⟨cells_of_keeps hk _ ht, read_of_keeps hk _ ht, hk.2, ?_⟩
+  intro e he
+  have : addWith grow sort h (resliceTo h t.exons j) xs = (res.1, res.2.1, some e) := by
+    rw [← he]
+  exact addWith_err_slice this
+
+/-- … and the re-sliced receiver is a well-formed slice of the same array, so the theorems about
+    `Add` on well-formed receivers (`accepted_sorted_disjoint`, `rejected_add_unchanged`) apply to it:
+    an accepted `t.Exons()[:j].Add(xs…)` returns the first `min j cap` cells of the transcript's array
+    plus `xs`, sorted and non-overlapping, in a new array. -/
+theorem reslice_add_accepted (grow : Nat → Nat → Nat) (sort : List Exon → List Exon) (hsort : SortSpec sort)
+    (h : Heap) (t : Tx) (j : Nat) (xs : List Exon) (w : WF h t.exons)
+    (h' : Heap) (r : Slice) (hacc : addWith grow sort h (resliceTo h t.exons j) xs = (h', r, none)) :
+    Disjoint (read h' r) ∧ (read h' r).Perm ((cells h t.exons).take (min j (cap h t.exons)) ++ xs) ∧
+      r.arr = h.length := by
+  have wr := resliceTo_wf w j
+  obtain ⟨_, hd, hp⟩ := accepted_sorted_disjoint grow sort hsort h _ xs wr h' r hacc
+  refine ⟨hd, hp, ?_⟩
+  rw [addWith_cases grow sort hsort.length h _ xs wr.readable] at hacc
+  split at hacc
+  · cases hacc
+  · split at hacc
+    · cases hacc
+    · simp only [Prod.mk.injEq] at hacc
+      rw [← hacc.2.1]
+
+/-- **An `Add` whose result is dropped is not an update**: over every history of a transcript, a
+    `t.Exons().Add(…)` or `t.Exons()[:j].Add(…)` with the result dropped — accepted or rejected —
+    leaves the transcript and the exon set it shows exactly as they were (what the driver demands
+    after an accepted `A` / `Z`: the exons shown are still the ones accepted last). -/
+theorem dropped_add_unchanged_history (id : Nat) (ops : List TxOp) (xs : List Exon) :
+    let st := txRun (txInit id) ops
+    (∀ j, (txApply st (.resliceAdd j xs)).1.2 = st.2 ∧
+        read (txApply st (.resliceAdd j xs)).1.1 st.2.exons = read st.1 st.2.exons ∧
+        cells (txApply st (.resliceAdd j xs)).1.1 st.2.exons = cells st.1 st.2.exons) ∧
+    ((txApply st (.addDrop xs)).1.2 = st.2 ∧
+        read (txApply st (.addDrop xs)).1.1 st.2.exons = read st.1 st.2.exons ∧
+        cells (txApply st (.addDrop xs)).1.1 st.2.exons = cells st.1 st.2.exons) := by
+  intro st
+  have w : WF st.1 st.2.exons := txRun_wf (txInit_wf id) ops
+  constructor
+  · intro j
+    have hk : Keeps st.1.length st.1 (add st.1 (resliceTo st.1 st.2.exons j) xs).1 :=
+      addWith_keeps exactGrow sortByStart st.1 (resliceTo st.1 st.2.exons j) xs
+    simp only [txApply]
+    generalize add st.1 (resliceTo st.1 st.2.exons j) xs = p at hk
+    obtain ⟨h', r, e⟩ := p
+    exact ⟨by first | rfl | trivial, read_of_keeps hk _ w.arr_lt, cells_of_keeps hk _ w.arr_lt⟩
+  · have hk : Keeps st.1.length st.1 (add st.1 st.2.exons xs).1 :=
+      addWith_keeps exactGrow sortByStart st.1 st.2.exons xs
+    simp only [txApply]
+    generalize add st.1 st.2.exons xs = p at hk
+    obtain ⟨h', r, e⟩ := p
+    exact ⟨by first | rfl | trivial, read_of_keeps hk _ w.arr_lt, cells_of_keeps hk _ w.arr_lt⟩
+
+-- non-vacuity: the reset idiom on a transcript with three exons; two arguments fit the capacity and
+-- overlap (rejected), one fits and is accepted, four exceed it
+example :
+    let st := txRun (txInit 1) [.set [⟨1, 0, 15, 1⟩, ⟨1, 15, 50, 2⟩, ⟨1, 94, 15, 3⟩]]
+    (txApply st (.resliceAdd 0 [⟨1, 4, 7, 4⟩, ⟨1, 8, 28, 5⟩])).2 = some .overlap ∧
+    (txApply st (.resliceAdd 0 [⟨1, 4, 7, 4⟩])).2 = none ∧
+    (txApply st (.resliceAdd 2 [⟨1, 70, 7, 4⟩])).2 = none ∧
+    (txApply st (.resliceAdd 2 [⟨1, 60, 7, 4⟩])).2 = some .overlap ∧
+    cap st.1 (resliceTo st.1 st.2.exons 0) = 3 ∧ (resliceTo st.1 st.2.exons 0).len = 0 ∧
+    read (txApply st (.resliceAdd 0 [⟨1, 4, 7, 4⟩, ⟨1, 8, 28, 5⟩])).1.1 st.2.exons
+      = [⟨1, 0, 15, 1⟩, ⟨1, 15, 50, 2⟩, ⟨1, 94, 15, 3⟩] := by decide
+
+/-- Refutation witness for seeded change C20-m3 (`newSlice := s` for an empty receiver, i.e. `Add` as
+    on the pinned tree when `len(s) = 0`): on the transcript above, `t.Exons()[:0].Add(4–11, 8–36)`
+    is rejected (overlap) and the transcript then shows `[4–11, 8–36, 94–109]` — the statement of
+    `reslice_add_never_writes_transcript` is false of `addPinnedWith`. -/
+theorem pinned_reset_add_corrupts_transcript :
+    let st := txRun (txInit 1) [.set [⟨1, 0, 15, 1⟩, ⟨1, 15, 50, 2⟩, ⟨1, 94, 15, 3⟩]]
+    let res := addPinnedWith exactGrow sortByStart st.1 (resliceTo st.1 st.2.exons 0) [⟨1, 4, 7, 4⟩, ⟨1, 8, 28, 5⟩]
+    res.2.2 = some .overlap ∧
+      read st.1 st.2.exons = [⟨1, 0, 15, 1⟩, ⟨1, 15, 50, 2⟩, ⟨1, 94, 15, 3⟩] ∧
+      read res.1 st.2.exons = [⟨1, 4, 7, 4⟩, ⟨1, 8, 28, 5⟩, ⟨1, 94, 15, 3⟩] := by decide
 
 
 /-! ## Gene.SetFeatures -/
